@@ -54,6 +54,9 @@ class Rule:
     d.update(kw)
     return Rule(**d)
 
+  def is_distinct(self):
+    return self.distinct or (isinstance(self.value, tuple) and self.value[0] == 'aggr')
+
   def is_agg(self):
     return any(isinstance(e, tuple) and e[0] == 'aggr' for _, e in self.args) or (isinstance(self.value, tuple) and self.value[0] == 'aggr')
 
